@@ -321,6 +321,7 @@ func ruleC10(w *World, r *Report) {
 	r.trivial("R10.3", "pfcpiface", "range-over-channel loops examined", "", fmt.Sprintf("%d", nRange))
 
 	ruleC10Teardown(w, r)
+	ruleC10Blocking(w, r, ctxRoots(w))
 	ruleC10Triggers(w, r)
 	ruleC10Forget(w, r)
 	ruleC10Stop(w, r)
@@ -755,6 +756,56 @@ func ruleC10Forget(w *World, r *Report) {
 		})
 		r.check(dialRemote != nil && k == dialRemote, "R10.6", w.FuncName(newConn), "the association is remembered under the address it is connected to", w.Pos(c.Pos()), "Store(rAddr) = Dial(…, rAddr)", "the map key is not the dialled remote address")
 	})
+	// a connection that the first message already shut down (Association Release Request as first
+	// datagram) is not remembered: its exit report has come and gone, nothing would ever delete it
+	{
+		sh := w.Fn(P, "pfcpiface.(*PFCPConn).Shutdown")
+		var firstMsg ssa.Instruction
+		allInstrs(newConn, func(i ssa.Instruction) {
+			if c, ok := i.(ssa.CallInstruction); ok {
+				if _, isGo := i.(*ssa.Go); isGo {
+					return
+				}
+				if w.CG().siteReaches(c, func(f *ssa.Function) bool { return f == sh }) {
+					firstMsg = i
+				}
+			}
+		})
+		if firstMsg == nil {
+			r.trivial("R10.6", w.FuncName(newConn), "nothing in NewPFCPConn can shut the new connection down before it is remembered", w.Pos(newConn.Pos()), "no call reaches Shutdown")
+		} else {
+			allInstrs(newConn, func(i ssa.Instruction) {
+				isPub := false
+				if c, ok := i.(*ssa.Call); ok && strings.HasSuffix(calleeName(c), "sync.Map).Store") {
+					isPub = true
+				}
+				if _, ok := i.(*ssa.Go); ok {
+					isPub = true
+				}
+				if !isPub || reach(newConn, firstMsg, func(j ssa.Instruction) bool { return j == i }, nil, nil) == nil {
+					return
+				}
+				// every path from the first-message call to the publication takes the "not shut down" edge
+				hit := reach(newConn, firstMsg, func(j ssa.Instruction) bool { return j == i }, nil, func(a, b *ssa.BasicBlock) bool {
+					x, op, y, ok := edgeFact(a, b)
+					if !ok {
+						return false
+					}
+					ex, isEx := x.(*ssa.Extract)
+					if !isEx || ex.Index != 0 {
+						return false
+					}
+					sel, isSel := ex.Tuple.(*ssa.Select)
+					if !isSel || sel.Blocking || len(sel.States) != 1 || chanFieldOf(sel.States[0].Chan) != "PFCPConn.shutdown" {
+						return false
+					}
+					k, isK := constInt(y)
+					return isK && ((op == token.NEQ && k == 0) || (op == token.EQL && k == -1))
+				})
+				r.check(hit == nil, "R10.6", w.FuncName(newConn), "a connection its first message shut down is not remembered / served", w.Pos(i.Pos()), "behind `select { case <-p.shutdown: return; default: }`", "after the first message was handled (it can be an Association Release Request, whose deferred Shutdown already reported the exit) the connection is still stored in pConns: nothing deletes it any more and the peer's later datagrams are dropped as 'existing PFCPconn'")
+			})
+		}
+	}
 	// per-connection store
 	nStore := 0
 	for _, a := range w.accessesOf(map[string]bool{"PFCPConn": true}) {
@@ -1069,4 +1120,80 @@ func ruleC10Records(w *World, r *Report) {
 			r.check(prot || other == "", "R10.8", w.FuncName(f), "a session record is added only where the teardown snapshot cannot miss it", w.Pos(i.Pos()), "serialised with GetAllSessions in the teardown", "PutSession runs on the reader goroutine while the teardown (GetAllSessions snapshot, then done/Close) can run on goroutine "+other+" with no common lock: a session established while the association is being torn down is programmed into the datapath after the snapshot and never removed")
 		})
 	}
+}
+
+
+func ctxRoots(w *World) map[*ssa.Function][]*goRoot {
+	var roots []*goRoot
+	for _, rt := range w.goroutineRoots() {
+		if strings.HasPrefix(rt.name, "test/") || strings.Contains(rt.why, "test/integration") {
+			continue
+		}
+		roots = append(roots, rt)
+	}
+	return w.contextsOf(roots)
+}
+
+// ruleC10Blocking: (a) the teardown does not wait for anything that can itself be waiting for the
+// teardown: blocking operations in its synchronous call tree (outside the datapath plug-ins, whose
+// calls are bounded by their own time-outs) are obligations; (b) the goroutine that drains
+// pConnDone never runs a teardown itself — the teardown's completion report would have no reader
+// once the channel's buffer is full; (c) the deletion handler removes the record only after the
+// datapath accepted the delete, so that a refused delete leaves the session for the teardown sweep.
+func ruleC10Blocking(w *World, r *Report, ctx map[*ssa.Function][]*goRoot) {
+	const P = "C10"
+	body := w.teardownBody(P)
+	tree := w.CG().Reachable([]*ssa.Function{body}, func(e *Edge) bool {
+		if e.Kind == "go" {
+			return false
+		}
+		n := w.FuncName(e.Callee)
+		return !strings.Contains(n, "(*bess).") && !strings.Contains(n, "(*UP4).") && !strings.Contains(n, "P4rt")
+	})
+	eng := newEngine(w, r, "R10.4", tree)
+	nf := 0
+	for _, f := range sortedFuncs(w, tree) {
+		nf++
+		eng.blkObls(f)
+	}
+	r.floor("R10.4 functions in the teardown's synchronous tree", nf, 5)
+	// (b)
+	drains := map[string]bool{}
+	for _, f := range w.Funcs {
+		if receivesFrom(f, "PFCPNode.pConnDone") {
+			for _, rt := range ctx[f] {
+				drains[rt.name] = true
+			}
+		}
+	}
+	clash := ""
+	for _, rt := range ctx[body] {
+		if drains[rt.name] {
+			clash = shortRoot(rt.name)
+		}
+	}
+	r.check(clash == "" && len(drains) > 0, "R10.4", w.FuncName(body), "the goroutine that drains pConnDone never runs a teardown itself", w.Pos(body.Pos()), "disjoint goroutine contexts", "goroutine "+clash+" both receives the completion reports (pConnDone) and calls Shutdown synchronously: with more connections than the channel buffers the teardown's report has no reader and the stop sequence blocks for ever (not even the join's timer runs)")
+	// (c)
+	h := w.Fn(P, "pfcpiface.(*PFCPConn).handleSessionDeletionRequest")
+	rejected := w.ConstInt(P, iePkg, "CauseRequestRejected")
+	delType := w.ConstInt(P, pfcpPkg, "upfMsgTypeDel")
+	var del *ssa.Call
+	for _, c := range datapathCalls(h, "SendMsgToUPF") {
+		if kk, isK := constInt(c.Call.Args[0]); isK && kk == delType {
+			del = c
+		}
+	}
+	rm := w.Fn(P, "pfcpiface.(*PFCPConn).RemoveSession")
+	if del == nil {
+		r.bad("R10.9", w.FuncName(h), "the deletion handler deletes from the datapath", w.Pos(h.Pos()), "no SendMsgToUPF(upfMsgTypeDel)")
+		return
+	}
+	k := 0
+	for _, c := range callsTo(h, rm) {
+		k++
+		si := c.(ssa.Instruction)
+		g := instrDominates(del, si) && onlyVia(h, si, func(a, b *ssa.BasicBlock) bool { return causeEdge(a, b, del, rejected, false) })
+		r.check(g, "R10.9", w.FuncName(h), "the session record is removed only after the datapath accepted the delete", w.Pos(si.Pos()), "after SendMsgToUPF(del) ≠ rejected", "the record is removed before (or regardless of) the datapath delete: when the delete is refused the session stays installed but is no longer in the store, so the end-of-association sweep does not remove it")
+	}
+	r.floor("R10.9 RemoveSession in the deletion handler", k, 1)
 }
